@@ -189,31 +189,40 @@ def _position_leaf_index(st):
     return [i for i, p in enumerate(paths) if p.endswith(".buffer.position")][0]
 
 
+_LOOP_REPLAY_MEMO = {}
+
+
 def native_loop_count_replay(algo_name, which):
     """R1: real reset / iteration on a real environment: per-environment buffer positions after warm-up equal learning_starts, and each iteration adds num_steps, for a grid of
     (learning_starts, num_steps, num_envs) including non-multiples."""
     def replay(model):
+        if algo_name not in _LOOP_REPLAY_MEMO:
+            _LOOP_REPLAY_MEMO[algo_name] = _replay(model)
+        return _LOOP_REPLAY_MEMO[algo_name]
+
+    def _replay(model):
         from lerax.env.classic_control import CartPole, Pendulum
         from lerax.policy import MLPQPolicy, MLPSACPolicy
         from lvc.generic import SimpleCallback
         cb = SimpleCallback("cb")
-        for ls, ns, ne in ((10, 4, 1), (3, 4, 1), (5, 2, 2), (4, 4, 1), (7, 3, 2)):
+        # the last three: learning_starts below batch_size / num_envs (0 included) - warm-up still stores exactly learning_starts
+        for ls, ns, ne, bs in ((10, 4, 1, 2), (3, 4, 1, 2), (5, 2, 2, 2), (4, 4, 1, 2), (7, 3, 2, 2), (0, 4, 1, 2), (2, 8, 1, 8), (1, 4, 2, 4)):
             if algo_name == "DQN":
                 env = CartPole()
-                algo = DQN(num_envs=ne, buffer_size=64, learning_starts=ls, num_steps=ns, batch_size=2)
+                algo = DQN(num_envs=ne, buffer_size=64, learning_starts=ls, num_steps=ns, batch_size=bs)
                 pol = MLPQPolicy(env, width_size=4, depth=1, key=jax.random.key(0))
             else:
                 env = Pendulum()
-                algo = SAC(num_envs=ne, buffer_size=64, learning_starts=ls, num_steps=ns, batch_size=2, q_width_size=4, q_depth=1)
+                algo = SAC(num_envs=ne, buffer_size=64, learning_starts=ls, num_steps=ns, batch_size=bs, q_width_size=4, q_depth=1)
                 pol = MLPSACPolicy(env, feature_size=4, width_size=4, depth=1, key=jax.random.key(0))
             st = algo.reset(env, pol, key=jax.random.key(1), callback=cb)
             p0 = np.asarray(st.step_state.buffer.position).reshape(-1).tolist()
             st1 = algo.iteration(st, key=jax.random.key(2), callback=cb)
             p1 = np.asarray(st1.step_state.buffer.position).reshape(-1).tolist()
             if p0 != [ls] * ne or p1 != [ls + ns] * ne:
-                return dict(reproduced=True, route=f"R1 (real {algo_name}.reset / iteration on a real environment and policy)", inputs=dict(learning_starts=ls, num_steps=ns, num_envs=ne),
+                return dict(reproduced=True, route=f"R1 (real {algo_name}.reset / iteration on a real environment and policy)", inputs=dict(learning_starts=ls, num_steps=ns, num_envs=ne, batch_size=bs),
                             observed=dict(stored_after_warm_up=p0, stored_after_one_iteration=p1, expected=[[ls] * ne, [ls + ns] * ne]))
-        return dict(reproduced=False, note="warm-up stores learning_starts and every iteration num_steps transitions per environment on 5 configurations")
+        return dict(reproduced=False, note="warm-up stores learning_starts and every iteration num_steps transitions per environment on 8 configurations (3 with learning_starts < batch_size / num_envs)")
     return replay
 
 
@@ -222,11 +231,11 @@ def unit_loops(S):
     `step` (callee contract: buffer.position' = buffer.position + 1, via add's contract); hence position grows by exactly
     L resp. T (loop rule: invariant position(k) = position(0) + k)."""
     S.under_contract(F_LS, F_CR)
-    L, T = symbolic_dims("L, T")
+    L, T, NE, BS = symbolic_dims("L, T, NE, BS")
     for which, fname, dim in (("collect_learning_starts", F_LS, L), ("collect_rollout", F_CR, T)):
-        # num_envs = 3: the per-environment loops must not depend on the number of environments
-        for algo_name, mk in (("DQN", lambda: DQN(num_envs=3, buffer_size=8, learning_starts=L, num_steps=T, batch_size=2)),
-                              ("SAC", lambda: SAC(num_envs=3, buffer_size=8, learning_starts=L, num_steps=T, batch_size=2))):
+        # num_envs and batch_size symbolic: the per-environment loops must not depend on the number of environments or on the batch size
+        for algo_name, mk in (("DQN", lambda: DQN(num_envs=NE, buffer_size=8, learning_starts=L, num_steps=T, batch_size=BS)),
+                              ("SAC", lambda: SAC(num_envs=NE, buffer_size=8, learning_starts=L, num_steps=T, batch_size=BS))):
             ctx = Ctx()
             algo = mk()
             E0 = GenericEnv(Discrete(3)) if algo_name == "DQN" else GenericEnv(BOXA())
@@ -241,10 +250,17 @@ def unit_loops(S):
             def hook(c, call, pidx=pidx):
                 c.assume(call.outputs[pidx].scalar() == call.operands[pidx].scalar() + 1)  # callee contract of step (C06 add + step/adds-exactly-one)
             ctx.callee_contracts["STEP#"] = hook
-            with extract.patched((AbstractOffPolicyAlgorithm, "step", _step_stub_factory(st_struct))):
-                fin = run(ctx, lambda a, e, p, s, kk: getattr(a, which)(e, p, s, cb, kk), algo, env_in, pol_in, st, k)
-            dz = ctx.dim(dim)
             tag = f"{algo_name}.{which}"
+            try:
+                with extract.patched((AbstractOffPolicyAlgorithm, "step", _step_stub_factory(st_struct))):
+                    fin = run(ctx, lambda a, e, p, s, kk: getattr(a, which)(e, p, s, cb, kk), algo, env_in, pol_in, st, k)
+            except Exception as e:      # InconclusiveDimensionOperation: the trip count is decided by comparing hyper-parameters (L, T, NE, BS arbitrary)
+                if "InconclusiveDimensionOperation" not in type(e).__name__:
+                    raise
+                S.fact(f"{tag}/one-scan-of-length", False, function=fname, what=f"one forward scan with trip count {dim} (symbolic); the loop length must not depend on any other hyper-parameter",
+                       detail=str(e)[:300], replay=native_loop_count_replay(algo_name, which))
+                continue
+            dz = ctx.dim(dim)
             ok = len(ctx.scans) == 1 and z3.is_expr(ctx.scans[0].length) and ctx.scans[0].length.eq(dz) and not ctx.scans[0].reverse
             S.fact(f"{tag}/one-scan-of-length", ok, function=fname, what=f"one forward scan with trip count {dim} (symbolic)", replay=native_loop_count_replay(algo_name, which))
             if not ok:
